@@ -3,8 +3,8 @@ package c18
 import (
 	"bufio"
 	"bytes"
-	"encoding/binary"
 	"crypto/x509"
+	"encoding/binary"
 	"encoding/hex"
 	"encoding/json"
 	"fmt"
@@ -184,7 +184,7 @@ type childResult struct {
 	NewRecords []string // identity records that reached the store during this run (after a kill)
 	Siblings   []string // files other than token / badger.db seen appearing in the data directory
 	Output     string   // tail of stdout+stderr
-	HarnessErr string // could not exec etc.
+	HarnessErr string   // could not exec etc.
 }
 
 type tailBuf struct {
@@ -294,7 +294,7 @@ func names(m map[string]bool) []string {
 // at the records on disk while it is frozen and either kills it (target reached) or lets it
 // continue. Every identity record is one write to the value log, so the child is looked at
 // after each single store write.
-func watchRecords(dataDir string, target int, before map[string]bool, pid int, stop chan struct{}, kill func()) {
+func watchRecords(dataDir string, target int, before map[string]bool, proc *os.Process, stop chan struct{}, kill func()) {
 	runtime.LockOSThread()
 	defer runtime.UnlockOSThread()
 	vlog := filepath.Join(dataDir, "badger.db", "000000.vlog")
@@ -322,7 +322,7 @@ func watchRecords(dataDir string, target int, before map[string]bool, pid int, s
 		if size <= 0 {
 			continue
 		}
-		syscall.Kill(pid, syscall.SIGSTOP)
+		proc.Signal(syscall.SIGSTOP)
 		time.Sleep(150 * time.Microsecond) // every thread has to take the stop
 		n := 0
 		for k := range diskRecords(dataDir) {
@@ -337,15 +337,17 @@ func watchRecords(dataDir string, target int, before map[string]bool, pid int, s
 		if syscall.Stat(vlog, &st) == nil {
 			last = st.Size
 		}
-		syscall.Kill(pid, syscall.SIGCONT)
+		proc.Signal(syscall.SIGCONT)
 	}
 }
 
 // watchSiblings reports (and optionally kills on) files appearing in the data directory
 // other than the token file and the store. inotify when available, else a tight readdir loop.
-func watchSiblings(dataDir string, stop chan struct{}, seen func(string), kill func()) (ready chan struct{}) {
+func watchSiblings(dataDir string, stop chan struct{}, seen func(string), kill func()) (ready, finished chan struct{}) {
 	ready = make(chan struct{})
+	finished = make(chan struct{})
 	go func() {
+		defer close(finished)
 		runtime.LockOSThread()
 		defer runtime.UnlockOSThread()
 		interesting := func(n string) bool { return n != "" && n != "token" && n != "badger.db" }
@@ -357,16 +359,20 @@ func watchSiblings(dataDir string, stop chan struct{}, seen func(string), kill f
 		if err == nil {
 			close(ready)
 			buf := make([]byte, 16384)
+			stopping := false
 			for i := 0; ; i++ {
-				if i&63 == 0 {
+				if i&63 == 0 && !stopping {
 					select {
 					case <-stop:
-						return
+						stopping = true // the queue may still hold events: drain it once more
 					default:
 					}
 				}
 				n, rerr := syscall.Read(fd, buf)
 				if rerr != nil || n <= 0 {
+					if stopping {
+						return
+					}
 					continue
 				}
 				for off := 0; off+16 <= n; {
@@ -375,7 +381,7 @@ func watchSiblings(dataDir string, stop chan struct{}, seen func(string), kill f
 					name := strings.TrimRight(string(buf[off+16:off+16+l]), "\x00")
 					off += 16 + l
 					if mask&syscall.IN_CREATE != 0 && interesting(name) {
-						if kill != nil {
+						if kill != nil && !stopping {
 							kill()
 						}
 						seen(name)
@@ -416,7 +422,7 @@ func watchSiblings(dataDir string, stop chan struct{}, seen func(string), kill f
 			}
 		}
 	}()
-	return ready
+	return ready, finished
 }
 
 // runChild starts one sensor process on dataDir and ends it as the plan says.
@@ -447,14 +453,16 @@ func runChild(dataDir string, r runT, plan killPlan) childResult {
 	before := diskRecords(dataDir)
 	var mu sync.Mutex
 	stopWatch := make(chan struct{})
+	var watcherDone chan struct{}
 	var t0 time.Time
 	var pidA atomic.Int64
+	// signals go through os.Process (pidfd-backed): never to a recycled pid
 	doKill := func() {
-		syscall.Kill(int(pidA.Load()), syscall.SIGKILL)
 		mu.Lock()
-		res.Killed = true
+		res.Killed = true // before the signal: Wait may return at once
 		res.KilledAt = time.Since(t0)
 		mu.Unlock()
+		cmd.Process.Signal(syscall.SIGKILL)
 	}
 	if plan.sibling || plan.watch {
 		if err := os.MkdirAll(dataDir, 0755); err != nil {
@@ -470,11 +478,13 @@ func runChild(dataDir string, r runT, plan killPlan) childResult {
 				}
 			}
 		}
-		<-watchSiblings(dataDir, stopWatch, func(n string) {
+		var ready chan struct{}
+		ready, watcherDone = watchSiblings(dataDir, stopWatch, func(n string) {
 			mu.Lock()
 			res.Siblings = append(res.Siblings, n)
 			mu.Unlock()
 		}, k)
+		<-ready
 	}
 	t0 = time.Now()
 	if err := cmd.Start(); err != nil {
@@ -483,12 +493,11 @@ func runChild(dataDir string, r runT, plan killPlan) childResult {
 		res.HarnessErr = "exec: " + err.Error()
 		return res
 	}
-	pid := cmd.Process.Pid
-	pidA.Store(int64(pid))
+	pidA.Store(int64(cmd.Process.Pid))
 	pw.Close()
 	var killTimer *time.Timer
 	if plan.rec > 0 {
-		go watchRecords(dataDir, plan.rec, before, pid, stopWatch, doKill)
+		go watchRecords(dataDir, plan.rec, before, cmd.Process, stopWatch, doKill)
 	} else if plan.delay >= 0 {
 		killTimer = time.AfterFunc(plan.delay, doKill)
 	}
@@ -526,6 +535,9 @@ func runChild(dataDir string, r runT, plan killPlan) childResult {
 	}()
 	werr := cmd.Wait()
 	close(stopWatch)
+	if watcherDone != nil {
+		<-watcherDone
+	}
 	guard.Stop()
 	if killTimer != nil {
 		killTimer.Stop()
@@ -690,7 +702,7 @@ type verdict struct {
 	Labels    []string
 	// per killed run: what the kill left (state-aimed kills)
 	KillLeft map[int]killLeft
-	Used      histCase // the case with the delays that were used
+	Used     histCase // the case with the delays that were used
 }
 
 type killLeft struct {
@@ -1095,7 +1107,7 @@ func TestHistories(t *testing.T) {
 		failUsed  histCase
 	)
 	budget := time.Duration(r.Pick(40, 120)) * time.Second
-	r.Rapid(t, "TestHistories", r.Pick(14, 180), func(rt *rapid.T) {
+	r.Rapid(t, "TestHistories", r.Pick(12, 180), func(rt *rapid.T) {
 		c := genCase(rt)
 		key := vlib.JSON(c)
 		if !firstFail.IsZero() && time.Since(firstFail) > budget {
@@ -1217,7 +1229,7 @@ func TestKillSweep(t *testing.T) {
 	}
 	shard, shards := r.Shard()
 	failed := 0
-	stride := r.Pick(2, 1)
+	stride := r.Pick(4, 1)
 	idx := 0
 	for k := 0; k <= killSteps; k += stride {
 		idx++
@@ -1430,7 +1442,7 @@ func TestTokenSiblingStates(t *testing.T) {
 	}
 
 	// (2) real kills at the moment the temporary file appears
-	attempts := r.Pick(4, 25)
+	attempts := r.Pick(3, 25)
 	for a := 0; a < attempts; a++ {
 		killed := plain
 		killed.KillSibling = true
